@@ -1,8 +1,15 @@
 /-
 C17 — peering: imports mirror exactly what was exported and touch nothing else.
-Property theorems only; helper lemmas live in CV/Proofs/Peer*.lean. Model: CV/Peer.lean.
+Property theorems only; helper lemmas live in CV/Proofs/Peer*.lean. Model: CV/Peer.lean, vocabulary of the
+statements (others, Sub, WF, SnapOK, ViewIs, Fresh, NoTheft, NoReuse, Covered): CV/PeerSpec.lean.
+
+Domain of the model: case-normal names (the state store lower-cases index keys, the importer's Go maps do not:
+names that differ only in case break the import — known finding `import:names-differing-only-in-case`, replayed
+on the implementation by the harness corpus on every run, not expressible in this model).
+All theorems quantify over arbitrary catalogs (any number of peers, nodes, instances, checks), arbitrary
+snapshots and arbitrary message sequences; there is no size bound anywhere.
 -/
-import CV.Proofs.PeerInv
+import CV.Proofs.PeerGo
 set_option linter.unusedSectionVars false
 set_option linter.unusedSimpArgs false
 namespace CV.Peer
@@ -106,6 +113,9 @@ theorem exported_list_only_removes (c : Cat) (p : String) (names : List String)
   unfold handleList at he ⊢
   exact (pruneAll_spec p (keepNames names) (serviceList c p) { cat := c } ⟨rfl, rfl⟩ he).1
 
+-- non-vacuity of section 2: a list update that unexports `web` from the catalog `exC` defined below is in
+-- section 4 (it needs the example catalog).
+
 /-! ## 3. The catalog for that peer and service equals the received snapshot
 
 Full-strength statement (FALSE for the code as it is, see the counterexamples below):
@@ -153,6 +163,24 @@ theorem import_exact_view_partial (c : Cat) (p sn : String) (is : List Inst)
   obtain ⟨a, b, d, e⟩ := handleUpdate_exact wf ok fr nt nr cv he hp
   exact viewIs_of_rows a ok b d e
 
+/-- **Consistent snapshots are processed.** If in addition no stored node of the peer carries another UUID under
+    the name of a received node (`NoClash`) and the stored view can be read (`Readable`), the update is
+    acknowledged: no registration fails, nothing panics. So the hypotheses "no error, no panic" of the theorems
+    of this file follow from conditions on the catalog and the snapshot alone. -/
+theorem import_processed (c : Cat) (p sn : String) (is : List Inst)
+    (wf : WF c) (ok : SnapOK sn is) (fr : Fresh c p is) (nt : NoTheft c p sn is) (nc : NoClash c p is)
+    (rd : Readable c p sn) :
+    (handleUpdate c p sn is).err = none ∧ (handleUpdate c p sn is).panic = false :=
+  handleUpdate_processed wf ok fr nt nc rd
+
+/-- Exactness with every hypothesis on the inputs, none on the outcome. -/
+theorem import_exact_total_partial (c : Cat) (p sn : String) (is : List Inst)
+    (wf : WF c) (ok : SnapOK sn is) (fr : Fresh c p is) (nt : NoTheft c p sn is) (nc : NoClash c p is)
+    (rd : Readable c p sn) (nr : NoReuse c p sn is) (cv : Covered c p sn is) :
+    (handleUpdate c p sn is).err = none ∧ ViewIs (handleUpdate c p sn is).cat p sn is := by
+  obtain ⟨he, hp⟩ := handleUpdate_processed wf ok fr nt nc rd
+  exact ⟨he, import_exact_view_partial c p sn is wf ok fr nt nr cv he hp⟩
+
 /-- A first import into a catalog that holds nothing of the peer needs none of the four hypotheses. -/
 theorem import_exact_first (c : Cat) (p sn : String) (is : List Inst) (wf : WF c) (ok : SnapOK sn is)
     (hnew : (∀ x ∈ c.nodes, x.peer ≠ p) ∧ (∀ x ∈ c.svcs, x.peer ≠ p) ∧ (∀ x ∈ c.chks, x.peer ≠ p))
@@ -167,26 +195,11 @@ theorem import_exact_first (c : Cat) (p sn : String) (is : List Inst) (wf : WF c
 /-! ### counterexamples to the full-strength statement (kernel-evaluated on the model; the same histories are
     found on the implementation by the harness monitors, signatures in parentheses) -/
 
-deriving instance DecidableEq for Except
-
-theorem not_viewIs_of_stale {r : Cat} {p sn : String} {is : List Inst} {L : List CSN} {x : CSN} {k : Chk}
-    (hL : csn r p sn = .ok L) (hx : x ∈ L) (hk : k ∈ x.chks) (hno : ∀ i ∈ is, ∀ d ∈ i.chks, k ≠ chkRow p d) :
-    ¬ ViewIs r p sn is := by
-  rintro ⟨L', hL', h1, _⟩
-  rw [hL] at hL'; cases hL'
-  obtain ⟨i, hi, _, _, hc⟩ := h1 x hx
-  obtain ⟨d, hd, e⟩ := (hc k).mp hk
-  exact hno i hi d hd e
-
 /-- stored: `web` instance `web1` on `n1`, node check `nc1` -/
 def cxB : Cat := { nodes := [⟨"p1", "n1", "", "10.0.0.1"⟩], svcs := [⟨"p1", "n1", "web1", "web", 80⟩],
                    chks := [⟨"p1", "n1", "nc1", "", "", "passing"⟩] }
 /-- received: the instance now has id `web2`, the node check is gone -/
 def cxBsnap : List Inst := [⟨⟨"n1", "", "10.0.0.1"⟩, ⟨"web2", "web", 80⟩, []⟩]
-
-theorem cxB_wf : WF cxB := ⟨by decide, by decide, by decide, by decide⟩
-theorem cxB_snapOK : SnapOK "web" cxBsnap :=
-  ⟨by decide, by decide, by decide, by decide, by decide, by decide, by decide, by decide⟩
 
 /-- (`import:stale-node-check:instance-id-replaced`) the stored instance is replaced by one with another id and
     the node check disappears in the same snapshot: the loop `continue`s after deregistering the old instance,
@@ -194,7 +207,8 @@ theorem cxB_snapOK : SnapOK "web" cxBsnap :=
 theorem import_exact_counterexample_instance_replaced :
     WF cxB ∧ SnapOK "web" cxBsnap ∧ (handleUpdate cxB "p1" "web" cxBsnap).err = none ∧
     ¬ ViewIs (handleUpdate cxB "p1" "web" cxBsnap).cat "p1" "web" cxBsnap ∧ ¬ Covered cxB "p1" "web" cxBsnap := by
-  refine ⟨cxB_wf, cxB_snapOK, by decide, ?_, by decide⟩
+  refine ⟨⟨by decide, by decide, by decide, by decide⟩,
+    ⟨by decide, by decide, by decide, by decide, by decide, by decide, by decide, by decide⟩, by decide, ?_, by decide⟩
   apply not_viewIs_of_stale (L := [⟨⟨"p1", "n1", "", "10.0.0.1"⟩, ⟨"p1", "n1", "web2", "web", 80⟩,
       [⟨"p1", "n1", "nc1", "", "", "passing"⟩]⟩]) (k := ⟨"p1", "n1", "nc1", "", "", "passing"⟩)
   · decide
@@ -273,6 +287,22 @@ theorem import_exact_counterexample_uuid_moved :
   refine ⟨⟨by decide, by decide, by decide, by decide⟩,
     ⟨by decide, by decide, by decide, by decide, by decide, by decide, by decide, by decide⟩, by decide, by decide, by decide⟩
 
+/-- stored: node `n1` with UUID `u1` and a passing serf check; received: node `n1` with UUID `u2` -/
+def cxF : Cat := { nodes := [⟨"p1", "n1", "u1", "10.0.0.1"⟩], svcs := [⟨"p1", "n1", "web1", "web", 80⟩],
+                   chks := [⟨"p1", "n1", "serfHealth", "", "", "passing"⟩] }
+def cxFsnap : List Inst := [⟨⟨"n1", "u2", "10.0.0.1"⟩, ⟨"web1", "web", 80⟩, [⟨"n1", "serfHealth", "", "", "passing"⟩]⟩]
+
+/-- `NoClash` is needed for `import_processed`: the exporter replaced node `n1` by a new machine with the same name
+    (its old serf check was last seen passing): `ensureNoNodeWithSimilarNameTxn` refuses the registration, the
+    update fails and changes nothing — this time and every time it is sent again. -/
+theorem import_processed_counterexample_node_reserved :
+    WF cxF ∧ SnapOK "web" cxFsnap ∧ Fresh cxF "p1" cxFsnap ∧ NoTheft cxF "p1" "web" cxFsnap ∧ Readable cxF "p1" "web" ∧
+    ¬ NoClash cxF "p1" cxFsnap ∧
+    (handleUpdate cxF "p1" "web" cxFsnap).err = some .nodeReserved ∧ (handleUpdate cxF "p1" "web" cxFsnap).cat = cxF := by
+  refine ⟨⟨by decide, by decide, by decide, by decide⟩,
+    ⟨by decide, by decide, by decide, by decide, by decide, by decide, by decide, by decide⟩,
+    by decide, by decide, by decide, by decide, by decide, by decide⟩
+
 /-! ### non-vacuity: a second update of a shared catalog that meets every hypothesis and changes everything -/
 
 /-- stored for peer `p1`: `web` on `n1` (instances `web1`, `web2`, node check `serfHealth`, service check `c1`) and on
@@ -297,6 +327,11 @@ theorem ex_hyps : Fresh exC "p1" exSnap ∧ NoTheft exC "p1" "web" exSnap ∧ No
     Covered exC "p1" "web" exSnap ∧ (handleUpdate exC "p1" "web" exSnap).err = none ∧
     (handleUpdate exC "p1" "web" exSnap).panic = false :=
   ⟨by decide, by decide, by decide, by decide, by decide, by decide⟩
+theorem ex_hyps2 : NoClash exC "p1" exSnap ∧ Readable exC "p1" "web" := ⟨by decide, by decide⟩
+
+example : (handleUpdate exC "p1" "web" exSnap).err = none ∧ ViewIs (handleUpdate exC "p1" "web" exSnap).cat "p1" "web" exSnap :=
+  import_exact_total_partial exC "p1" "web" exSnap ex_wf ex_snapOK ex_hyps.1 ex_hyps.2.1 ex_hyps2.1 ex_hyps2.2
+    ex_hyps.2.2.1 ex_hyps.2.2.2.1
 
 example : ViewIs (handleUpdate exC "p1" "web" exSnap).cat "p1" "web" exSnap :=
   import_exact_view_partial exC "p1" "web" exSnap ex_wf ex_snapOK ex_hyps.1 ex_hyps.2.1 ex_hyps.2.2.1 ex_hyps.2.2.2.1
@@ -357,6 +392,12 @@ example : (⟨"p1", "n1", "api1", "api", 443⟩ : Svc) ∈ (handleUpdate exC "p1
   (other_services_same_peer exC "p1" "web" exSnap ex_wf ex_snapOK ex_hyps.1 ex_hyps.2.1 ex_hyps.2.2.2.2.1
     ex_hyps.2.2.2.2.2).1 _ (by decide) rfl (by decide)
 example : (⟨"p1", "n2", "", "10.0.0.2"⟩ : Node) ∉ (handleUpdate exC "p1" "web" exSnap).cat.nodes := by decide
+
+-- a list update on the same catalog: `web` is no longer exported, `api` is
+example : (handleList exC "p1" ["api"]).err = none ∧
+    (handleList exC "p1" ["api"]).cat.svcs.filter (fun s => decide (s.peer = "p1")) = [⟨"p1", "n1", "api1", "api", 443⟩] ∧
+    (handleList exC "p1" ["api"]).cat.nodes.filter (fun n => decide (n.peer = "p1")) = [⟨"p1", "n1", "u1", "10.0.0.1"⟩] := by
+  decide
 
 /-! ## 5. The exporting side offers a service only to its consumers -/
 
@@ -420,5 +461,10 @@ theorem export_only_to_consumers (cfg : List ExpEntry) (typical chains connect :
             simp only [List.mem_filter, decide_eq_true_eq] at h
             exact ⟨h.2, e, he, hp, Or.inr hw⟩
     · exact key h
+
+-- non-vacuity: exact entry, wildcard for another peer, `consul` never, an unknown peer gets nothing
+example : exportedFor [⟨"web", ["p1"]⟩, ⟨"*", ["p2", "p3"]⟩, ⟨"consul", ["p1"]⟩] ["api", "consul", "web"] "p1" = ["web"] := by decide
+example : exportedFor [⟨"web", ["p1"]⟩, ⟨"*", ["p2", "p3"]⟩, ⟨"consul", ["p1"]⟩] ["api", "consul", "web"] "p2" = ["api", "web"] := by decide
+example : exportedFor [⟨"web", ["p1"]⟩, ⟨"*", ["p2", "p3"]⟩, ⟨"consul", ["p1"]⟩] ["api", "consul", "web"] "p9" = [] := by decide
 
 end CV.Peer
